@@ -232,13 +232,20 @@ func (fs *FS) Apply(ev Event) (Applied, error) {
 			delete(fs.fds, fd)
 		}
 		return a, nil
-	case "write", "pwrite64":
+	case "write", "pwrite64", "writev", "pwritev", "pwritev2":
 		fd, _ := strconv.Atoi(arg(0))
 		e, ok := fs.fds[fd]
 		if !ok {
 			return a, nil
 		}
-		data, err := Str(arg(1))
+		var data []byte
+		var err error
+		vectored := ev.Name != "write" && ev.Name != "pwrite64"
+		if vectored {
+			data, err = iovData(arg(1))
+		} else {
+			data, err = Str(arg(1))
+		}
 		if err != nil {
 			return a, &UnknownCallError{err.Error()}
 		}
@@ -251,9 +258,19 @@ func (fs *FS) Apply(ev Event) (Applied, error) {
 			return a, nil
 		}
 		off := e.off
-		if ev.Name == "pwrite64" {
-			off, _ = strconv.ParseInt(arg(3), 0, 64)
-		} else if e.app {
+		positioned := false
+		if ev.Name == "pwrite64" || ev.Name == "pwritev" || ev.Name == "pwritev2" {
+			var perr error
+			off, perr = strconv.ParseInt(strings.TrimSpace(arg(3)), 0, 64)
+			if perr != nil {
+				return a, &UnknownCallError{ev.Name + " with unreadable offset"}
+			}
+			positioned = true
+			if off == -1 && ev.Name == "pwritev2" { // "use and update the file position"
+				off, positioned = e.off, false
+			}
+		}
+		if !positioned && e.app {
 			off = int64(len(e.n.data))
 		}
 		if need := off + int64(len(data)); need > int64(len(e.n.data)) {
@@ -261,7 +278,7 @@ func (fs *FS) Apply(ev Event) (Applied, error) {
 		}
 		copy(e.n.data[off:], data)
 		e.n.sum = nil
-		if ev.Name == "write" {
+		if !positioned {
 			e.off = off + int64(len(data))
 		}
 		a.Op, a.Path, a.N, a.Changed, a.Fd = "write", e.path, len(data), len(data) > 0, fd
@@ -393,6 +410,72 @@ func (fs *FS) Apply(ev Event) (Applied, error) {
 			return a, &UnknownCallError{ev.Name + " on a tracked descriptor"}
 		}
 		return a, nil
+	case "link", "linkat":
+		od, op, nd, np := "AT_FDCWD", arg(0), "AT_FDCWD", arg(1)
+		if ev.Name == "linkat" {
+			od, op, nd, np = arg(0), arg(1), arg(2), arg(3)
+		}
+		ob, err1 := Str(op)
+		nb, err2 := Str(np)
+		if err1 != nil || err2 != nil {
+			return a, &UnknownCallError{"link arguments"}
+		}
+		orel, ook, err := fs.resolve(od, string(ob))
+		if err != nil {
+			return a, err
+		}
+		nrel, nok, err := fs.resolve(nd, string(nb))
+		if err != nil {
+			return a, err
+		}
+		if !ook && !nok {
+			return a, nil
+		}
+		if ook != nok {
+			return a, &UnknownCallError{"hard link across the boundary of the traced directory"}
+		}
+		_, _, on := fs.lookup(orel)
+		npar, nname, nn := fs.lookup(nrel)
+		if on == nil || on.dir || npar == nil || nn != nil {
+			return a, &UnknownCallError{fmt.Sprintf("link %q -> %q succeeded but the model disagrees", orel, nrel)}
+		}
+		npar.children[nname] = on // both names are the same file from now on
+		a.Op, a.Path, a.Path2, a.Changed = "link", orel, nrel, true
+		return a, nil
+	case "truncate":
+		pb, err := Str(arg(0))
+		if err != nil {
+			return a, &UnknownCallError{err.Error()}
+		}
+		rel, ok, err := fs.resolve("AT_FDCWD", string(pb))
+		if err != nil || !ok {
+			return a, err
+		}
+		_, _, n := fs.lookup(rel)
+		if n == nil || n.dir {
+			return a, &UnknownCallError{fmt.Sprintf("truncate %q succeeded but the model has no such file", rel)}
+		}
+		sz, perr := strconv.ParseInt(strings.TrimSpace(arg(1)), 0, 64)
+		if perr != nil {
+			return a, &UnknownCallError{"truncate with unreadable length"}
+		}
+		if sz < int64(len(n.data)) {
+			n.data = n.data[:sz]
+		} else {
+			n.data = append(n.data, make([]byte, sz-int64(len(n.data)))...)
+		}
+		n.sum = nil
+		a.Op, a.Path, a.Changed = "truncate", rel, true
+		return a, nil
+	case "mmap":
+		// a writable shared mapping of a tracked file changes it without further system calls
+		fd, perr := strconv.Atoi(strings.TrimSpace(arg(4)))
+		if perr == nil {
+			if e, ok := fs.fds[fd]; ok && !e.isAck && strings.Contains(arg(2), "PROT_WRITE") && strings.Contains(arg(3), "MAP_SHARED") {
+				return a, &UnknownCallError{"writable shared mapping of a tracked file"}
+			}
+		}
+		return a, nil
 	case "fallocate":
 		fd, _ := strconv.Atoi(arg(0))
 		e, ok := fs.fds[fd]
@@ -420,8 +503,51 @@ func (fs *FS) Apply(ev Event) (Applied, error) {
 			return a, nil
 		}
 		return a, &UnknownCallError{"fallocate mode " + mode + " on a tracked descriptor"}
+	case "getdents64", "read", "pread64":
+		return a, nil
+	}
+	// any other traced call (symlinkat, copy_file_range, sendfile, splice, openat2, io_uring_*, ...): the model does not
+	// know what it does, so a call that names a tracked descriptor or a path below the root makes the trace unusable
+	if fs.touchesRoot(ev) {
+		return a, &UnknownCallError{ev.Name + " on the traced directory is not modelled"}
+	}
+	for _, ar := range ev.Args {
+		if fd, err := strconv.Atoi(strings.TrimSpace(ar)); err == nil {
+			if e, ok := fs.fds[fd]; ok && !e.isAck {
+				return a, &UnknownCallError{ev.Name + " on a tracked descriptor is not modelled"}
+			}
+		}
 	}
 	return a, nil
+}
+
+// iovData concatenates the buffers of a printed iovec array: [{iov_base="...", iov_len=5}, ...].
+func iovData(arg string) ([]byte, error) {
+	if strings.Contains(arg, "...") {
+		return nil, fmt.Errorf("iovec array was abbreviated by strace")
+	}
+	var out []byte
+	rest := arg
+	for {
+		i := strings.Index(rest, "iov_base=")
+		if i < 0 {
+			return out, nil
+		}
+		rest = rest[i+len("iov_base="):]
+		if !strings.HasPrefix(rest, "\"") {
+			return nil, fmt.Errorf("iovec base is not a string: %.40s", rest)
+		}
+		end := strings.IndexByte(rest[1:], '"')
+		if end < 0 {
+			return nil, fmt.Errorf("unterminated iovec string")
+		}
+		b, err := Str(rest[:end+2])
+		if err != nil {
+			return nil, err
+		}
+		out = append(out, b...)
+		rest = rest[end+2:]
+	}
 }
 
 // touchesRoot reports whether a call whose outcome is unknown could have changed the tree below Root (or the ack file).
